@@ -1,26 +1,7 @@
 """Unit `expr`: the three implementations of the parenthesis rule (C05), skeleton preservation of the
-expression spine (C02), `- -x` (C01.3), operator tables. Real text of src/formatters/expression.rs."""
+expression spine (C02), `- -x` (C01.3). Real text of src/formatters/expression.rs."""
 from gen import Unit, Fn, Item, Raw, RawFile, Hole, After, Before, Loop
-
-EX = "src/formatters/expression.rs"
-GEN = "src/formatters/general.rs"
-FUN = "src/formatters/functions.rs"
-TRV = "src/formatters/trivia.rs"
-TU = "src/formatters/trivia_util.rs"
-SH = "src/shape.rs"
-CTX = "src/context.rs"
-
-HEADER = """
-use full_moon::ast::{Expression, UnOp, BinOp, FunctionBody, FunctionCall, TableConstructor, Var, VarExpression, Prefix, Suffix, Index, Call, FunctionArgs, MethodCall};
-use full_moon::ast::span::ContainedSpan;
-use full_moon::ast::punctuated::Punctuated;
-use full_moon::tokenizer::{TokenReference, Token, TokenType, Symbol, StringLiteralQuoteType};
-#[cfg(feature = "luau")]
-use full_moon::ast::luau::{IfExpression, InterpolatedString, TypeAssertion};
-use std::fmt::Display;
-"""
-
-MODHDR = None
+from common import *
 
 SPEC_EXPR = r"""
 // ---- spec: what an ExpressionContext value soundly says about the position of the expression ----
@@ -61,57 +42,6 @@ pub open spec fn expr_post(e: Expression, r: Expression, c: ExpressionContext) -
     &&& stays_closed(e, r, c)
 }
 """
-
-LEAF_POST = "ensures skel(r) == skel(*{arg}),"
-
-def shape_stubs():
-    names = ["reset", "indent", "with_indent", "increment_additional_indent", "increment_block_indent", "over_budget",
-             "add_width", "take_first_line", "take_last_line", "using_simple_heuristics", "with_simple_heuristics",
-             "with_infinite_width", "used_width"]
-    nd = [Hole("<T: Display>", "<T>", why="std::fmt::Display cannot be given an external trait specification; bound dropped on the stub", kind="proxy")]
-    out = [Fn(SH, n, impl_of="Shape", mode="stub", sig_edits=(nd if n.startswith("take_") else [])) for n in names]
-    out += [Fn(SH, n, impl_of="Indent", mode="stub") for n in
-            ["block_indent", "additional_indent", "with_additional_indent", "add_indent_level", "indent_width"]]
-    return out
-
-SHAPE_ADD = Raw("""
-impl vstd::std_specs::ops::AddSpecImpl<usize> for Shape {
-    open spec fn obeys_add_spec() -> bool { false }
-    open spec fn add_req(self, rhs: usize) -> bool { true }
-    open spec fn add_spec(self, rhs: usize) -> Shape { self }
-}
-impl core::ops::Add<usize> for Shape {
-    type Output = Shape;
-    #[verifier::external_body]
-    fn add(self, rhs: usize) -> Shape { unimplemented!() }
-}
-""", module="shape")
-
-def common_items():
-    """types and stubs shared by the formatter units"""
-    return [
-        RawFile("prelude/fm_types.rs"),
-        RawFile("prelude/fm_specs.rs"),
-        RawFile("prelude/skel.rs"),
-        RawFile("prelude/traits.rs"),
-        # lib.rs configuration types: real text
-        Item("src/lib.rs", "enum", "LuaVersion"), Item("src/lib.rs", "enum", "IndentType"),
-        Item("src/lib.rs", "enum", "LineEndings"), Item("src/lib.rs", "enum", "QuoteStyle"),
-        Item("src/lib.rs", "enum", "CallParenType"), Item("src/lib.rs", "enum", "CollapseSimpleStatement"),
-        Item("src/lib.rs", "struct", "Range"), Item("src/lib.rs", "struct", "SortRequiresConfig"),
-        Item("src/lib.rs", "enum", "SpaceAfterFunctionNames"), Item("src/lib.rs", "struct", "Config"),
-        Item(CTX, "enum", "FormatNode"),
-        Item(CTX, "struct", "Context", edits=[Hole("Option<FormatRange>", "Option<Range>", why="`use … Range as FormatRange` alias resolved")]),
-        Fn(CTX, "config", impl_of="Context", mode="stub", contract="ensures r == self.config,"),
-        Fn(CTX, "create_indent_trivia", mode="stub"),
-        Fn(CTX, "create_newline_trivia", mode="stub"),
-        Item(SH, "struct", "Indent"), Item(SH, "struct", "Shape"),
-        *shape_stubs(), SHAPE_ADD,
-        Item(TRV, "enum", "FormatTriviaType", keep_derives=()),
-        Item(TU, "enum", "CommentSearch", keep_derives=("Clone", "Copy")),
-    ]
-
-VN = Hole("impl Node", "impl VNode", why="proxy trait for the sealed full_moon::node::Node", kind="proxy")
 
 def items():
     its = common_items()
@@ -279,11 +209,5 @@ for _p, _t in [("C05.hang_binop", "hang_binop_expression (hanging path, operand 
     LABELS[_p + ".no_double_minus"] = dict(props=["C05", "C01"], text=_t + ": no unary minus directly under a unary minus (`--x`)")
     LABELS[_p + ".fits"] = dict(props=["C05", "C02"], text=_t + ": the result still fits every position its ExpressionContext stands for")
     LABELS[_p + ".closed"] = dict(props=["C05", "C01"], text=_t + ": under an operator the result does not become right-open")
-
-VERIF_MOD = Raw("""
-#[verifier::external_body] pub fn hole_vec_token() -> Vec<Token> { unimplemented!() }
-#[verifier::external_body] pub fn hole_usize() -> usize { unimplemented!() }
-#[verifier::external_body] pub fn hole_bool() -> bool { unimplemented!() }
-""", module="verif")
 
 UNIT = Unit("expr", items() + [VERIF_MOD], LABELS, macros=[(GEN, "fmt_symbol"), (EX, "fmt_op")], header=HEADER, module_header=MODHDR)
